@@ -560,7 +560,7 @@ pub fn run(ctx: &mut Ctx) -> Report {
          then random sequences (capacity 0..33, writes around the capacity, limit around the total); \
          (b) `ragc create` child processes under RLIMIT_FSIZE=n (SIGXFSZ ignored): archives of 5-40 kB from the structured generator (multi-file and single-file), \
          n over a stride of 0..size, every offset of the last footer+8+64 bytes, sampled part boundaries, n = size, size+1, size+4096, 2*size and no limit \
-         (thorough: more archives, an archive < 4 kB exhaustively, one archive > 4 MiB around the BufWriter capacity); \
+         (thorough: more archives, an archive < 1.5 kB exhaustively, one archive > 4 MiB around the BufWriter capacity); \
          a case is one (archive, n) or one BufWriter op sequence; non-trivial when the fault offset lies below the number of bytes to write",
     );
     let seed = ctx.seed;
@@ -617,7 +617,7 @@ pub fn run(ctx: &mut Ctx) -> Report {
     };
     let n_arch = ctx.t(2u64, 5u64);
     let n_stride = ctx.t(20u64, 120u64);
-    let exhaustive_below = ctx.t(0u64, 4000u64);
+    let exhaustive_below = ctx.t(0u64, 1500u64);
     let mut archs = vec![];
     for idx in 0..n_arch {
         if let Some(ac) = prepare(&bin, &workdir, seed, idx, false, &mut rep) {
